@@ -249,17 +249,37 @@ def trial_dispatch(ctx):
         ctx.ob("KEYS-1", f"_prep_afqmc: walker_type '{wt}' binds prop = propagation.{cls}", found, "", rd)
 
 
-def options_defaults(ctx):
-    p = ctx.p
-    rd = p.func("mpi_jax._prep_afqmc")
-    defaults = set()
+def option_defaults_of(rd) -> Set[str]:
+    """Keys of `options` that keep a user-supplied value (whatever it is, including falsy ones) and otherwise get a
+    default:  options[k] = options.get(k, d)  /  options.setdefault(k, d)  /  if k not in options: options[k] = d."""
+    defaults: Set[str] = set()
     for nd in ast.walk(rd.node):
         if isinstance(nd, ast.Assign) and isinstance(nd.targets[0], ast.Subscript) and \
                 isinstance(nd.targets[0].value, ast.Name) and nd.targets[0].value.id == "options":
             k = _str_const(nd.targets[0].slice)
             if k and isinstance(nd.value, ast.Call) and isinstance(nd.value.func, ast.Attribute) and \
-                    nd.value.func.attr == "get" and nd.value.args and _str_const(nd.value.args[0]) == k:
+                    nd.value.func.attr == "get" and len(nd.value.args) == 2 and _str_const(nd.value.args[0]) == k and \
+                    isinstance(nd.value.func.value, ast.Name) and nd.value.func.value.id == "options":
                 defaults.add(k)
+        if isinstance(nd, ast.Call) and isinstance(nd.func, ast.Attribute) and nd.func.attr == "setdefault" and \
+                isinstance(nd.func.value, ast.Name) and nd.func.value.id == "options" and len(nd.args) == 2:
+            k = _str_const(nd.args[0])
+            if k:
+                defaults.add(k)
+        if isinstance(nd, ast.If) and isinstance(nd.test, ast.Compare) and len(nd.test.ops) == 1 and \
+                isinstance(nd.test.ops[0], ast.NotIn) and isinstance(nd.test.comparators[0], ast.Name) and \
+                nd.test.comparators[0].id == "options":
+            k = _str_const(nd.test.left)
+            if k and any(isinstance(st, ast.Assign) and isinstance(st.targets[0], ast.Subscript) and
+                         _str_const(st.targets[0].slice) == k for st in nd.body):
+                defaults.add(k)
+    return defaults
+
+
+def options_defaults(ctx):
+    p = ctx.p
+    rd = p.func("mpi_jax._prep_afqmc")
+    defaults = option_defaults_of(rd)
     reads: Dict[str, Tuple[str, int]] = {}
     for q in ("driver.afqmc", "driver.fp_afqmc", "mpi_jax._prep_afqmc"):
         fi = p.func(q)
